@@ -133,6 +133,11 @@ Definition batch_sets (k : key) (e : mevent) : bool :=
   | _ => false
   end.
 
+Definition cancelled_ev (k : key) (e : mevent) : bool :=
+  match e with EvCancelled k' => keqb k k' | _ => false end.
+Definition is_add_of (k : key) (l : mlabel) : bool :=
+  match l with MAdd m q => keqb (msg_key q (m_id m)) k | _ => false end.
+
 (* what the store holds for queue q: what recover reads, and the pending entries under
    q's scan prefix *)
 Definition under (q : bytes) (m : kv msg) : kv msg := kv_filter_prefix m (msg_prefix_del q).
